@@ -650,6 +650,10 @@ def stream_len(it, st, s):
         b = stream_len(it, st, s.parts[1])
         if a == b:
             return a
+        from .terms import NF
+        nf = NF()
+        if nf(a).equals(nf(b)):
+            return a
         return ('imin', a, b)
     if k == 'lit':
         return iconst(len(s.parts))
@@ -717,7 +721,21 @@ def stream_elem(ctx, s, i):
         na = stream_len(it, st, a)
         if i[0] == 'ic' and na[0] == 'ic':
             return stream_elem(ctx, a, i) if i[1] < na[1] else stream_elem(ctx, b, iconst(i[1] - na[1]))
-        return it.select(mk_icmp('lt', i, na), stream_elem(ctx, a, i), stream_elem(ctx, b, it.isub(i, na)))
+        cond = mk_icmp('lt', i, na)
+        st_before = ctx.state
+        ctx.state = st_before.copy()
+        ea = stream_elem(ctx, a, i)
+        sa = ctx.state
+        ctx.state = st_before.copy()
+        eb = stream_elem(ctx, b, it.isub(i, na))
+        sb = ctx.state
+        store = {}
+        for r in set(sa.store) | set(sb.store):
+            va = sa.store.get(r, UNINIT)
+            vb = sb.store.get(r, UNINIT)
+            store[r] = va if va is vb else it.select(cond, va, vb)
+        ctx.state = State(store, st_before.guard, st_before.facts)
+        return it.select(cond, ea, eb)
     if k == 'skip':
         return stream_elem(ctx, s.parts[0], it.iadd(i, s.parts[1]))
     if k == 'map':
@@ -1057,6 +1075,10 @@ def collect_seq(ctx, s):
     st0 = ctx.state
     if s.kind == 'lit':
         return SeqLit(tuple(s.parts))
+    if s.kind == 'chain':
+        a = collect_seq(ctx, s.parts[0])
+        b = collect_seq(ctx, s.parts[1])
+        return SeqConcat((a, b))
     n = stream_len(it, st0, s)
     cn = _concrete_len(n)
     ivar = it.fresh_sym('ι')
@@ -1076,7 +1098,7 @@ def collect_seq(ctx, s):
         for p, x, y in d:
             changed.append((root, p, x, y))
     if not changed:
-        return SeqMap(s, ivar, e, 'collect')
+        return SeqMap(s, ivar, e, 'collect', n)
     # stateful map = SCAN: havoc the changed leaves and summarise one step
     st1 = State(dict(st0.store), st0.guard, st0.facts | {mk_icmp('lt', ivar, n)})
     syms = []
@@ -1104,7 +1126,7 @@ def collect_seq(ctx, s):
         for p, x, y in d:
             if not any(rp == (root, p) for rp, _, _ in syms):
                 raise Unsupported('stateful map: unstable carried state')
-    seq = SeqScan(s, ivar, tuple((rp, fv) for rp, fv, _ in syms), tuple(x for _, _, x in syms), tuple(nxt), e2)
+    seq = SeqScan(s, ivar, tuple((rp, fv) for rp, fv, _ in syms), tuple(x for _, _, x in syms), tuple(nxt), e2, None, n)
     it.events.append({'kind': 'scan', 'fn': ctx.frame.f['path'] if ctx.frame else None, 'line': ctx.line, 'seq': seq})
     return seq
 
@@ -1131,9 +1153,9 @@ def _(ctx):
         ivar = seq.ivar
         allok = ('all', it.abstract(ctx.state, s), ivar, okg)
         if isinstance(seq, SeqMap):
-            okseq = SeqMap(seq.src, ivar, payload, 'collect_ok')
+            okseq = SeqMap(seq.src, ivar, payload, 'collect_ok', seq.n)
         else:
-            okseq = SeqScan(seq.src, seq.ivar, seq.state_syms, seq.init, seq.next_state, payload, err=mk_not(okg))
+            okseq = SeqScan(seq.src, seq.ivar, seq.state_syms, seq.init, seq.next_state, payload, mk_not(okg), seq.n)
         return Enum(RESULT, ((allok, 0, (VecV(okseq),)), (mk_not(allok), 1, (Opaque(('collect_err', it.abstract(ctx.state, s))),))))
     seq = collect_seq(ctx, s)
     it.events.append({'kind': 'collect', 'fn': ctx.frame.f['path'] if ctx.frame else None, 'line': ctx.line,
